@@ -16,7 +16,9 @@ CFG = {
             "an empty table and from a table prefilled to just below its first growth, Size/Get after every step and the full battery "
             "(Size, IsEmpty, Get of every key and an absent one, All, layout dump, Equal against a rebuilt and a perturbed sibling) at the end; "
             "adversarial: fill across the growth threshold with absent-key lookups, delete-and-revive every key, oscillation across "
-            "grow/shrink thresholds, operations on empty tables; random: phase-structured churn (grow, shrink, revive, put-then-delete) "
+            "grow/shrink thresholds, operations on empty tables, capacities next to squares of primes filled to the limit under one-class hashes, "
+            "capacities the constructor must reject; on a fidelity disagreement about the table size m a directed search (same history under a constant hash, "
+            "then fill-to-the-limit with absent-key Get/Delete; then one growth from primes just below m/2) looks for a property-level failure; random: phase-structured churn (grow, shrink, revive, put-then-delete) "
             "mirrored on a sibling table, up to 2500 (quick) / 5000 (thorough) steps. "
             "A case is non-trivial when the model side saw at least one structural event (growth, shrink, in-place rehash, tombstone "
             "revival, or a successful Delete from a table holding 2+ keys); distinct = distinct (configuration, op list).",
@@ -27,3 +29,164 @@ CFG = {
                     "keys are ints with eqKey = (==); the model is parametric in K, V, eqKey, hash"],
     "timeout": 900,
 }
+
+
+# ---------------------------------------------------------------- directed search on a table-size disagreement
+# When model and implementation disagree only on a fidelity observable and that observable is the number of
+# slots m (layout dump), the size policy of the implementation has drifted (isPrime, smallestPrimeLargerThan,
+# thresholds).  A wrong size is exactly what can break termination (a composite size shortens the quadratic
+# probe cycle), so before reporting `no-failing-input-found` the history is replayed with every key hashed to
+# one probe class and the table is then filled to the limit of the disputed size, with Get/Delete of absent
+# colliding keys after every Put, under the watchdog.  A hang or a wrong answer found this way is reported as
+# the failing input.
+import os, re, sys
+
+sys.path.insert(0, os.path.join(os.path.dirname(os.path.dirname(os.path.abspath(__file__))), "lib"))
+import vlib
+
+
+def _directed_case(case, mismatch):
+    what = mismatch.get("what", "")
+    mm = re.search(r"implementation state \[m=(\d+) .*model state \[m=(\d+) ", what)
+    if not mm or mm.group(1) == mm.group(2):
+        return None
+    impl_m = int(mm.group(1))
+    head, ops = vlib.split_case(case)
+    ops = [vlib.strip_results(o) for o in ops]
+    try:
+        k = int(mismatch.get("op", len(ops)))
+    except ValueError:
+        k = len(ops)
+    prefix = [o for o in ops[:k] if o and o != "N"]
+    mx = re.search(r"\bX([01])\b", ops[k - 1] if 0 < k <= len(ops) else "X0")
+    x = mx.group(1) if mx else "0"
+    keys = set()
+    for o in prefix:
+        f = o.split()
+        if len(f) >= 2 and f[0][0] in "PGD":
+            keys.add(int(f[1]))
+    fill = min(max(impl_m, 64), 4000)
+    fresh = [9000000 + j for j in range(fill)]
+    absent = [9500000 + j for j in range(fill)]
+    newops = list(prefix)
+    for j in range(fill):
+        newops += ["P%s %d %d" % (x, fresh[j], j), "G%s %d" % (x, absent[j]), "D%s %d" % (x, absent[j])]
+        if j % 32 == 0:
+            newops.append("S%s" % x)
+    allkeys = sorted(keys | set(fresh) | set(absent))
+    toks = [t for t in head.split() if not t.startswith("H=") and not t.startswith("hf=")]
+    toks.append("hf=const")
+    toks.append("H=" + ",".join("%d:0" % kk for kk in allkeys))
+    return " ".join(toks) + " | " + " | ".join(newops)
+
+
+def directed_search(prop, cfg, obj):
+    """obj: the correspondence-broken violation object of std_check. Returns a failing-input object or None."""
+    case, mismatch = obj.get("case"), obj.get("mismatch") or {}
+    if not case:
+        return None
+    rc, out, model_exe = vlib.ocaml_build(prop)
+    rc2, out2, trace_exe = vlib.go_build(cfg["cmd"])
+    if rc or rc2:
+        return None
+    d = os.path.join(vlib.BUILD, "run" + vlib.repo_tag())
+    os.makedirs(d, exist_ok=True)
+    line = _directed_case(case, mismatch)
+    if line is None:
+        # the reported fidelity mismatch is not a layout dump (e.g. iteration order): replay the history with a
+        # dump of both tables after every operation and look for the first disagreement on m
+        head, ops = vlib.split_case(case)
+        probe = []
+        for o in [vlib.strip_results(o) for o in ops]:
+            if o and o != "N":
+                probe += [o, "X0", "X1"]
+        pp = os.path.join(d, prop + "-sizeprobe.case")
+        open(pp, "w").write(head + " | " + " | ".join(probe) + "\n")
+        tp0, _, _, _, dout0 = vlib.run_pair(trace_exe, model_exe, "--replay " + pp, prop + "-sizeprobe", timeout=600)
+        mism0, _, _ = vlib.parse_driver_output(dout0)
+        traced0 = [l for l in open(tp0, errors="replace").read().split("\n") if l.strip() and not l.startswith("#")]
+        for m0 in mism0:
+            if traced0:
+                line = _directed_case(traced0[0], m0)
+                if line is not None:
+                    mismatch = m0
+                    break
+    if line is None:
+        return None
+    cp = os.path.join(d, prop + "-directed.case")
+    open(cp, "w").write(line + "\n")
+    tp, rc1, err, rc3, dout = vlib.run_pair(trace_exe, model_exe, "--replay " + cp, prop + "-directed", timeout=600)
+    mism, _, _ = vlib.parse_driver_output(dout)
+    api = [m for m in mism if m.get("kind", "api") == "api"]
+    traced = [l for l in open(tp, errors="replace").read().split("\n") if l.strip() and not l.startswith("#")]
+    failing = traced[0] if traced else line
+    if not api and rc1 == 0:
+        # second stage: the options of the disputed history may leave the probe cycle of that size unsaturated.
+        # Reach the disputed size by one growth from a prime capacity just below half of it, with the default
+        # options and a constant hash, and fill to the limit.
+        mm = re.search(r"implementation state \[m=(\d+) ", mismatch.get("what", ""))
+        kind = case.split()[0]
+        if not mm or kind not in ("quadratic", "double"):
+            return None
+        impl_m = int(mm.group(1))
+
+        def is_prime(n):
+            return n > 1 and all(n % q for q in range(2, int(n ** 0.5) + 1))
+
+        cands = [c for c in range(impl_m // 2, max(30, impl_m // 2 - 60), -1) if is_prime(c)][:8]
+        lines = []
+        for c in cands:
+            ks = list(range(impl_m + 8))
+            ops = []
+            for j in ks:
+                ops += ["P0 %d %d" % (j, j), "G0 %d" % (9500000 + j), "D0 %d" % (9500000 + j)]
+            allk = ks + [9500000 + j for j in ks]
+            lines.append("%s cap=%d min=1/8 max=1/2 hf=const H=%s | %s"
+                         % (kind, c, ",".join("%d:0" % k for k in allk), " | ".join(ops)))
+        if not lines:
+            return None
+        open(cp, "w").write("\n".join(lines) + "\n")
+        tp, rc1, err, rc3, dout = vlib.run_pair(trace_exe, model_exe, "--replay " + cp, prop + "-directed2", timeout=600)
+        mism, _, _ = vlib.parse_driver_output(dout)
+        api = [m for m in mism if m.get("kind", "api") == "api"]
+        if not api and rc1 == 0:
+            return None
+        traced = [l for l in open(tp, errors="replace").read().split("\n") if l.strip() and not l.startswith("#")]
+        if api:
+            try:
+                failing = traced[int(api[0].get("line", "1")) - 1]
+            except (ValueError, IndexError):
+                failing = traced[-1] if traced else lines[0]
+        else:
+            failing = traced[-1] if traced else lines[0]
+    m = api[0] if api else {"line": "1", "op": "?", "kind": "api", "what": "harness exit %d: %s" % (rc1, err[-300:])}
+    small, m2 = vlib.shrink(trace_exe, model_exe, failing, still_fails=lambda z: z.get("kind", "api") == "api", budget=150)
+    if m2:
+        failing, m = small, m2
+    return {"kind": "implementation-vs-proved-model", "batch": "directed (size disagreement: %s)" % mismatch.get("what", "")[:160],
+            "case": failing, "mismatch": m, "found_by": "directed search after a fidelity mismatch on the table size m",
+            "replay_cmd": "bin/check %s --replay <this file>" % prop,
+            "meaning": "implementation and model disagree on the table size; filling the table to the limit of the "
+                       "implementation's size under a one-class hash function exhibits a property-level failure"}
+
+
+def check_with_directed_search(run, cfg):
+    orig = run.violation
+
+    def hooked(replay_obj, no_input=False, tag=None):
+        if no_input and replay_obj.get("kind") == "correspondence-broken":
+            try:
+                found = directed_search(run.prop, cfg, replay_obj)
+            except Exception as ex:  # the directed search must never mask the original report
+                vlib.log("directed search failed: %r" % (ex,))
+                found = None
+            if found:
+                return orig(found, no_input=False, tag="directed")
+        return orig(replay_obj, no_input=no_input, tag=tag)
+
+    run.violation = hooked
+    return vlib.std_check(run, cfg)
+
+
+def main(run):
+    return check_with_directed_search(run, CFG)
